@@ -212,6 +212,38 @@ def repair_ternary(code, src=""):
     return map_bodies(code, f), n[0]
 
 
+def repair_ternary_tail(code, src=""):
+    """the same root cause with nothing after the abandoned item (`x = 1 ? 2, 3 ?`): the item `3 ?` emitted its condition and
+    its `jne` and pushed the jne's index before it failed; the closing action then patches that jne (to `jne 1`, over the default
+    `push.str ""`) instead of the previous arm's `jmp`, which stays `jmp 0`.  Signature: `jmp 0 ; <self-contained code> ; jne 1 ;
+    push.str ""`.  Shape-level repair: the arm's jmp lands behind the default push, the abandoned condition and its jne go."""
+    n = [0]
+
+    def f(c):
+        for e, op in enumerate(c):
+            if not (op[1] == "push.str" and op[2] == "s0" and e >= 2):
+                continue
+            j = c[e - 1]
+            if not (j[1] == "jne" and j[2] == "i" and int(j[3]) == 1):
+                continue
+            p = next((q for q in range(e - 2, -1, -1) if c[q][1] == "jmp" and c[q][2] == "i" and int(c[q][3]) == 0), None)
+            if p is None:
+                continue
+            ok = True
+            for q in range(p + 1, e - 1):
+                o = c[q]
+                if o[1] in ("halt", "ret", "jmp", "je", "jne", "je.dup", "block.push", "block.pop"):
+                    ok = False
+            if not ok:
+                continue
+            c[p][3] = e - p
+            for q in range(p + 1, e):
+                c[q][0:4] = [74, "nop", "nil", 0]
+            n[0] += 1
+        return c
+    return map_bodies(code, f), n[0]
+
+
 ARRAY_SLICE = re.compile(r"\]\s*\[[^\]]*:")
 
 
@@ -239,6 +271,7 @@ def repair_array_slice(code, src=""):
 
 REPAIRS = [("valueless-assignment-used-as-value", repair_valueless),
            ("ternary-list-misplaced-item-code", repair_ternary),
+           ("ternary-list-misplaced-item-code", repair_ternary_tail),
            ("abandoned-or-operand-unpatched-jedup", repair_jedup),
            ("array-literal-slice-misplaced-index-code", repair_array_slice)]
 
